@@ -261,6 +261,13 @@ func main() {
 		runC12()
 	case "c13":
 		runC13()
+	case "mksource":
+		// a source GeoPackage for the free-running -race pass of C11 over the real gpkg source/targets
+		src := c13Source{Tables: []string{"parcels", "regions", "pois"}, Polys: []string{"plain", "pinch", "small", "hole", "cw", "plain", "tiny"}, Multis: []string{"m-two", "m-mixed"}, Points: 4}
+		if err := src.build(os.Args[2]); err != nil {
+			fmt.Fprintln(os.Stderr, err)
+			os.Exit(2)
+		}
 	default:
 		os.Exit(2)
 	}
